@@ -138,7 +138,7 @@ def main(tier):
             ck.add_function(f, "body discharged" if not ck.violations else "body NOT discharged", o[1]["reached"].get(f, 0))
     for can, oc in zip(CANARIES, outs[1:]):
         ref = oc[0] == "ok" and not oc[1]["error"] and any(r["status"] != "proved" for r in oc[1]["results"])
-        ck.canaries.append((f"{can[0]}: {can[2]!r} -> {can[3]!r}", ref))
+        ck.canary(f"{can[0]}: {can[2]!r} -> {can[3]!r}", ref, oc)
     ck.trusted = ["cited: centred differences are second-order accurate, backward Euler first order, Crank-Nicolson second order (Lax equivalence for these stable consistent schemes)",
                   "the closed-form solutions of the sealed cable / RC circuit themselves (not mechanised)", "jax.numpy primitive models, z3 nlsat"]
     ck.assumptions += ["what is proved is one-step consistency with exact constants (units); the asymptotic orders follow by cited theorems; input/transfer resistance of the sealed cable are not checked mechanically"]
